@@ -579,6 +579,15 @@ def corrupt_tests(uni, rng, n_schema, n_object, exhaustive=False):
         add({"target": "object", "slot": 1, "kind": "set", "val": v})
     for kind, name in STRAYS:
         add({"target": "stray", "kind": kind, "val": name})
+    # structure-aware damage of the serialised index (object id of an entry becomes another object's,
+    # value of another entry, entries dropped / duplicated / swapped, object-ids table edited)
+    for kind in ("idxoid", "idxval", "idxdrop", "idxdup", "idxswap"):
+        for fld in range(0, 10):
+            for ent in (0, 1):
+                add({"target": "schema", "kind": kind, "at": fld * 8 + ent})
+    for kind in ("oiddrop", "oiddup"):
+        for k in (0, 1):
+            add({"target": "schema", "kind": kind, "at": k})
     return out
 
 
